@@ -1,10 +1,11 @@
 CONSTANTS
-  Replica = {"r1", "r2", "r3"}
+  Replica = {"r1", "r2", "r3", "fs"}
+  Lagging = {"fs"}
   MaxHeight = 4
   Kinds = {"line", "restart", "rollback1", "rollback2", "spec", "valins"}
   ExportOn = TRUE
 INIT Init
 NEXT Next
-INVARIANTS Agreement
+INVARIANTS Agreement InSyncOrPrefix
 ACTION_CONSTRAINT Export
 CHECK_DEADLOCK FALSE
